@@ -310,7 +310,11 @@ type Processor struct {
 // to avoid re-processing units belonging to messages already completed.
 const finalizedCacheSize = 2048
 
-func NewProcessor(localPeer peer.ID, config *Config) (*Processor, <-chan Event) {
+func NewProcessor(
+	localPeer peer.ID,
+	config *Config,
+	logger log.StructuredLogger,
+) (*Processor, <-chan Event) {
 	timeout := config.StaleMessageTimeout
 	processingEvents := make(chan Event)
 
@@ -334,6 +338,7 @@ func NewProcessor(localPeer peer.ID, config *Config) (*Processor, <-chan Event) 
 			maxWorkers:             1000,
 			maxWorkersPerPublisher: 250,
 		},
+		logger: logger,
 	}, processingEvents
 }
 
